@@ -153,6 +153,14 @@ package hcl
 //@ trusted
 //@ assigns nothing
 
+// Static analysis helpers only inspect the expression (assumed frames; bodies not verified).
+// verif:func AbsTraversalForExpr
+//@ trusted
+//@ assigns nothing
+// verif:func ExprList
+//@ trusted
+//@ assigns nothing
+
 // ---- merged bodies (unit U10b, C04: the laws hold uniformly for merged bodies) ----
 // verif:unit U10b props=C04
 // Exhaustive processing of the merged body is exhaustive processing of every child, exactly once
